@@ -7,6 +7,7 @@ import (
 	"encoding/json"
 	"flag"
 	"fmt"
+	"io"
 	"math/rand/v2"
 	"net"
 	"os"
@@ -317,7 +318,36 @@ func runC20(c *Ctx, scAny any) {
 	upRecv := make([]int64, 1)
 	rightUp, wrongUp := 0, 0
 	var snapshotKeys func()
-	startUpstream(w.Upstream[method], upRecv, func() { rightUp++; snapshotKeys() })
+	// the proxy server: header = upload size, download size, pause in ms; it
+	// takes the upload, stays silent for the pause, then sends the download
+	simsync.Go("h:upstream", func() {
+		for {
+			uc, err := w.Upstream[method].Accept()
+			if err != nil {
+				return
+			}
+			rightUp++
+			snapshotKeys()
+			simsync.Go("h:upstream-conn", func() {
+				defer uc.Close()
+				hdr := make([]byte, 12)
+				if _, err := io.ReadFull(uc, hdr); err != nil {
+					return
+				}
+				up, down, pause := int(binary.BigEndian.Uint32(hdr)), int(binary.BigEndian.Uint32(hdr[4:])), int(binary.BigEndian.Uint32(hdr[8:]))
+				if _, err := io.ReadFull(uc, make([]byte, up)); err != nil {
+					return
+				}
+				if pause > 0 {
+					Sleep(time.Duration(pause) * time.Millisecond)
+				}
+				if _, err := uc.Write(make([]byte, down)); err != nil {
+					return
+				}
+				io.Copy(io.Discard, uc)
+			})
+		}
+	})
 	startUpstream(w.Upstream["other"], upRecv, func() { wrongUp++ })
 	simsync.Go("h:target", func() {
 		for {
@@ -445,6 +475,22 @@ func runC20(c *Ctx, scAny any) {
 			hdr := make([]byte, 12)
 			binary.BigEndian.PutUint32(hdr, 3000)
 			binary.BigEndian.PutUint32(hdr[4:], 5000)
+			if i == sc.Streams-1 && sc.Seed%4 == 3 {
+				// a long-lived connection: its download only starts when the
+				// connection is older than StreamTimeout ("Cloak will not enforce any
+				// timeout on TCP connections after it is established")
+				to := 300
+				if v, ok := sc.get("StreamTimeout"); ok {
+					if n := 0; true {
+						fmt.Sscanf(v, "%d", &n)
+						if n != 0 {
+							to = n
+						}
+					}
+				}
+				binary.BigEndian.PutUint32(hdr[8:], uint32(to*1000+1500))
+				c.Probe("long_lived_connection")
+			}
 			conn.Write(hdr)
 			conn.Write(make([]byte, 3000))
 			buf := make([]byte, 8192)
